@@ -63,6 +63,8 @@ type Contract struct {
 	Allocates bool
 	Each      []string // lemma parameters ranging over all declared constants of their type
 	UseBody   []string // callees whose bodies are executed in this unit instead of their contracts
+	AbstractRem bool   // the % operator is uninterpreted in this unit (reasoned about through `uses` lemmas)
+	Cases     []Clause // proof hint: postconditions are proved separately under each condition and its negation (entry state)
 	Preserves []Clause // locations inside the modifies set that are nevertheless unchanged
 	Uses      []string // lemmas whose (spec-level) statements are assumed, quantified over their parameters
 	Hide      []string // package-level variables whose contents are hidden in this unit (known only through `uses` lemmas)
@@ -430,7 +432,7 @@ func stripSpecPrefix(line string) (string, bool) {
 
 var clauseKeywords = map[string]bool{"requires": true, "ensures": true, "modifies": true, "loop": true, "inline": true,
 	"opaque": true, "trusted": true, "abstract": true, "func": true, "lemma": true, "pure": true, "assert": true,
-	"bounded": true, "ghost": true, "noframe": true, "allocates": true, "each": true, "usebody": true, "uses": true, "hide": true, "preserves": true}
+	"bounded": true, "ghost": true, "noframe": true, "allocates": true, "each": true, "usebody": true, "uses": true, "hide": true, "preserves": true, "cases": true, "abstractrem": true}
 
 // ParseContracts scans a Go source file for //@ blocks.
 func ParseContracts(fset *token.FileSet, filename string, src []byte, cs *ContractSet) error {
@@ -550,6 +552,14 @@ func ParseContracts(fset *token.FileSet, filename string, src []byte, cs *Contra
 				cur.NoFrame = true
 			case "each":
 				cur.Each = append(cur.Each, strings.Fields(strings.ReplaceAll(rest, ",", " "))...)
+			case "abstractrem":
+				cur.AbstractRem = true
+			case "cases":
+				c, err := mkClause(rest)
+				if err != nil {
+					return err
+				}
+				cur.Cases = append(cur.Cases, c)
 			case "preserves":
 				for _, part := range splitTopLevel(rest) {
 					c, err := mkClause(part)
